@@ -133,6 +133,9 @@ func (f *FuncVC) execCall1(fr *frame, st *State, x *ssa.Call) {
 		}
 		sig := com.Method.Type().(*types.Signature)
 		fr.vals[x] = f.applyContract(fr, st, c, nil, sig, args, x.Pos(), x.Type())
+		if fr.top {
+			f.reachProbe("reach.call", st, x.Pos(), "the point after the call of "+c.Key+" is reachable under its contract")
+		}
 		return
 	}
 	callee := com.StaticCallee()
@@ -176,6 +179,9 @@ func (f *FuncVC) execCall1(fr *frame, st *State, x *ssa.Call) {
 	if c != nil && !c.Inline {
 		sig := callee.Signature
 		fr.vals[x] = f.applyContract(fr, st, c, callee, sig, args, x.Pos(), x.Type())
+		if fr.top {
+			f.reachProbe("reach.call", st, x.Pos(), "the point after the call of "+c.Key+" is reachable under its contract")
+		}
 		return
 	}
 	// inline small loop-free callees
